@@ -120,6 +120,15 @@ var corpus = []variant{
 		{"pkg/operations/update.go", "", "			hdr.PAXRecords[records.STFSRecordUncompressedSize] = strconv.Itoa(int(hdr.Size))\n			hdr.Size = 0 // Don't try to seek after the record\n", "			hdrToAppend := *hdr\n			hdrs = append(hdrs, &hdrToAppend)\n"},
 		{"pkg/operations/update.go", "hdr.PAXRecords[records.STFSRecordReplacesContent] = records.STFSRecordReplacesContentFalse", "			hdrToAppend := *hdr\n			hdrs = append(hdrs, &hdrToAppend)\n\n			if err := signature.SignHeader(", "			hdr.Size = 0\n\n			if err := signature.SignHeader("},
 	}},
+	{"C08-hollow-signature-eof-string", "C08", "C08.hollow-signature-is-invalid", []edit{{"pkg/signature/verify.go", "", "\t\t\t// A signature that holds no packet at all is invalid, not the end of anything: io.EOF would read as a clean end\n\t\t\t// of the content further up\n\t\t\tif err == io.EOF {\n\t\t\t\treturn config.ErrSignatureInvalid\n\t\t\t}\n\n", ""}}},
+	{"C18-hollow-signature-eof-stream", "C18", "C18.hollow-signature-is-invalid", []edit{{"pkg/signature/verify.go", "", "\t\t\t// A signature that holds no packet at all is invalid, not the end of anything: io.EOF would read as a clean end\n\t\t\t// of the content further up\n\t\t\tif err == io.EOF {\n\t\t\t\treturn nil, nil, config.ErrSignatureInvalid\n\t\t\t}\n\n", ""}}},
+	{"C11-readat-two-critical-sections", "C11", "C11.handle-calls-are-one-critical-section", []edit{{"pkg/fs/file.go", "", "\t// One critical section: another call on this handle must not move the cursor between the seek and the read\n\tf.ioLock.Lock()\n\tdefer f.ioLock.Unlock()\n\n\tif f.info.IsDir() {\n\t\treturn 0, config.ErrIsDirectory\n\t}\n\n\tif _, err := f.seekWithoutLocking(off, io.SeekStart); err != nil {\n\t\treturn 0, err\n\t}\n\n\treturn f.readWithoutLocking(p)\n}\n", "\tf.ioLock.Lock()\n\tisDir := f.info.IsDir()\n\tf.ioLock.Unlock()\n\n\tif isDir {\n\t\treturn 0, config.ErrIsDirectory\n\t}\n\n\tif _, err := f.Seek(off, io.SeekStart); err != nil {\n\t\treturn 0, err\n\t}\n\n\treturn f.Read(p)\n}\n"}}},
+	{"C14-readat-two-critical-sections", "C14", "C14.handle-calls-are-one-critical-section", []edit{{"pkg/fs/file.go", "", "\t// One critical section: another call on this handle must not move the cursor between the seek and the read\n\tf.ioLock.Lock()\n\tdefer f.ioLock.Unlock()\n\n\tif f.info.IsDir() {\n\t\treturn 0, config.ErrIsDirectory\n\t}\n\n\tif _, err := f.seekWithoutLocking(off, io.SeekStart); err != nil {\n\t\treturn 0, err\n\t}\n\n\treturn f.readWithoutLocking(p)\n}\n", "\tf.ioLock.Lock()\n\tisDir := f.info.IsDir()\n\tf.ioLock.Unlock()\n\n\tif isDir {\n\t\treturn 0, config.ErrIsDirectory\n\t}\n\n\tif _, err := f.Seek(off, io.SeekStart); err != nil {\n\t\treturn 0, err\n\t}\n\n\treturn f.Read(p)\n}\n"}}},
+	{"C10-decoded-pax-map-unguarded", "C10", "C10.pax-records-map-present", []edit{{"internal/converters/header.go", "", "\tif paxRecords == nil {\n\t\tpaxRecords = map[string]string{}\n\t}\n", ""}}},
+	{"C05-decoded-pax-map-unguarded", "C05", "C05.pax-records-map-present", []edit{{"internal/converters/header.go", "", "\tif paxRecords == nil {\n\t\tpaxRecords = map[string]string{}\n\t}\n", ""}}},
+	{"C09-cli-encryption-from-signature-flag", "C09", "C09.cli-pipe-config-from-its-flags", []edit{{"cmd/stfs/cmd/operation_archive.go", "", "Encryption:  viper.GetString(encryptionFlag),", "Encryption:  viper.GetString(signatureFlag),"}}},
+	{"C14-positioned-read-skips-seek", "C14", "C14.positioned-ops-seek-first", []edit{{"pkg/fs/file.go", "", "\tif _, err := f.seekWithoutLocking(off, io.SeekStart); err != nil {\n\t\treturn 0, err\n\t}\n\n\treturn f.readWithoutLocking(p)\n", "\tif off != 0 {\n\t\tif _, err := f.seekWithoutLocking(off, io.SeekStart); err != nil {\n\t\t\treturn 0, err\n\t\t}\n\t}\n\n\treturn f.readWithoutLocking(p)\n"}}},
+	{"C15-open-purges-tombstones", "C15", "C15.only-the-mutators-write-rows", []edit{{"pkg/persisters/metadata.go", "func (p *MetadataPersister) Open() error {", "	root, err := p.GetRootPath(context.Background())\n", "	if _, err := queries.Raw(\"delete from headers where deleted = 1\").Exec(p.sqlite.DB); err != nil {\n		return err\n	}\n\n	root, err := p.GetRootPath(context.Background())\n"}}},
 	{"C17-metadata-update-zeroes-size", "C17", "C17.metadata-update-keeps-size", []edit{{"pkg/operations/update.go", "", "			hdr.PAXRecords[records.STFSRecordUncompressedSize] = strconv.Itoa(int(hdr.Size))\n			hdr.Size = 0 // Don't try to seek after the record\n", "			hdr.Size = 0 // Don't try to seek after the record\n"}}},
 	{"C14-truncate-empties-before-growing", "C14", "C14.truncate-preserves-content", []edit{{"pkg/fs/file.go", "func (f *File) Truncate(", "	if err := f.writeBuf.Truncate(size); err != nil {\n", "	if err := f.writeBuf.Truncate(0); err != nil {\n"}}},
 	{"C14-truncation-only-on-first-write", "C14", "C14.truncate-at-open", []edit{{"pkg/fs/filesystem.go", "func (f *STFS) OpenFile(", "	if flags.Truncate && flags.Write && hdr.Typeflag != tar.TypeDir && hdr.Size > 0 {\n		if err := file.enterWriteMode(); err != nil {\n			return nil, err\n		}\n	}\n", ""}}},
@@ -283,8 +292,10 @@ func selftestSummary(p *Property, repo, verif string) []selftestResult {
 		v := v
 		tasks = append(tasks, func() selftestResult { return runVariant(v, repo, verif) })
 	}
-	tasks = append(tasks, seededTasks(p, repo, verif)...)
-	tasks = append(tasks, benignTasks(p, repo, verif)...)
+	if os.Getenv("STFS_SELFTEST") != "variants" { // development aid: the anchored text variants only
+		tasks = append(tasks, seededTasks(p, repo, verif)...)
+		tasks = append(tasks, benignTasks(p, repo, verif)...)
+	}
 	out := make([]selftestResult, len(tasks))
 	sem := make(chan struct{}, selftestWorkers)
 	var wg sync.WaitGroup
